@@ -272,7 +272,8 @@ def compare_case(case, variant, obs, model, check_types=True):
             spec = "the file defining the reserved functions was modified"
         else:
             seen = {}
-            for f in obs.get("funcs", []):
+            # (result type, parameter types) identifies (plugin, argument types) in the C11 streams only
+            for f in (obs.get("funcs", []) if check_types else []):
                 k = (f["result"], tuple(f["params"]))
                 if k in seen:
                     spec = "two generated functions for the same plugin and argument types: %s and %s %s" % (seen[k], f["name"], k)
